@@ -24,7 +24,7 @@ RULE = ("seeded class-based genotype matrices: phased (ploidy,n,m) and unphased 
         "duplicate names, grouped or not; every case drives all four estimators with their own argument class (reference "
         "frequencies None | scalar | vector inside (0,1) | vector with exact 0/1 entries; marker weights None | scalar incl. 0 | "
         "vector with zeros | integer vector | all zero | 1e-3..1e3 spread), a random permutation and a random sub-selection, both "
-        "output formats, and (every 4th case) the factory classes.  History family: a live, invertible coancestry object (n 2..8, m > n) is "
+        "output formats (the format argument spelled lower-case, Capitalised, UPPER and mIxEd in rotation on every format-taking method), and (every 4th case) the factory classes.  History family: a live, invertible coancestry object (n 2..8, m > n) is "
         "queried for every view, element-access index form (none, int, slices, Ellipsis, mixed, negative, index arrays) and summary, then 3-7 random steps of reorder_taxa (non-identity) / sort_taxa / group_taxa / "
         "remove_taxa / select_taxa (continuing on the result) / mat assignment (same shape: permuted, scaled+ridge, fresh Gram) / no-op, "
         "with every view and summary re-judged against the CURRENT mat after each step.  Factory family: two long-lived instances of an "
@@ -268,21 +268,32 @@ def judge_readonly(ctx, cm, G, pair, axis, coords, wit, state=None):
     def cl(name):
         return "C13.summary.history" if state else name
 
+    cap = [""]  # set per format: the documented case-insensitive spellings are all driven
+
     def ic(x):
-        return state if state else x
+        return (state + cap[0]) if state else (x + cap[0])
+
+    def spell(fmt, k):
+        k %= 4
+        sp = [fmt, fmt.capitalize(), fmt.upper(), "".join(ch.upper() if i % 2 else ch for i, ch in enumerate(fmt))][k]
+        return sp, ("" if k == 0 else "/format spelled with capitals")
+    v0 = int(pair[0]) % 4
+    sp_co, cap_co = spell("coancestry", v0)
+    sp_ki, cap_ki = spell("kinship", v0 + 1)
+    wit = dict(wit, format_spellings=[sp_co, sp_ki])
     n = G.shape[0]
     finite = bool(numpy.all(numpy.isfinite(G)))
     scale = float(numpy.abs(G).max()) if G.size and finite else 0.0
     w = numpy.linalg.eigvalsh(0.5 * (G + G.T)) if finite and n else None
     # -- kinship view = exactly half the coancestry view
     ok, views = returns(ctx, defsite(cm, "mat_asformat"), ic("both formats"), coords,
-                        lambda: (cm.mat_asformat("coancestry"), cm.mat_asformat("kinship")), wit)
+                        lambda: (cm.mat_asformat(sp_co), cm.mat_asformat(sp_ki)), wit)
     if ok:
         co, ki = views
         ctx.check(cl("C13.kinship"), isinstance(co, numpy.ndarray) and numpy.array_equal(co, G, equal_nan=True),
-                  defsite(cm, "mat_asformat"), "coancestry view == mat", ic("coancestry"), witness=dict(wit, mat=G, view=co), coords=coords)
+                  defsite(cm, "mat_asformat"), "coancestry view == mat", "coancestry" + cap_co if not state else state + cap_co, witness=dict(wit, mat=G, view=co), coords=coords)
         ctx.check(cl("C13.kinship"), isinstance(ki, numpy.ndarray) and numpy.array_equal(ki, 0.5 * G, equal_nan=True),
-                  defsite(cm, "mat_asformat"), "kinship view == 0.5 * coancestry view (exact)", ic("kinship"),
+                  defsite(cm, "mat_asformat"), "kinship view == 0.5 * coancestry view (exact)", "kinship" + cap_ki if not state else state + cap_ki,
                   witness=dict(wit, mat=G, view=ki), coords=coords)
     i, j = pair
     if n:
@@ -326,20 +337,21 @@ def judge_readonly(ctx, cm, G, pair, axis, coords, wit, state=None):
     # -- summaries against direct evaluation on the matrix
     flat = G.ravel().tolist()
     for fmt in FORMATS:
+        spf, cap[0] = (sp_co, cap_co) if fmt == "coancestry" else (sp_ki, cap_ki)
         h = 1.0 if fmt == "coancestry" else 0.5
         K = h * G
         kflat = [h * v for v in flat]
         # extreme values
         for name, ref in (("max", max(kflat)), ("min", min(kflat)), ("max_inbreeding", max(h * G[a, a] for a in range(n)))):
             site = defsite(cm, name)
-            ok, got = returns(ctx, site, ic(fmt), coords, lambda: getattr(cm, name)(format=fmt), wit)
+            ok, got = returns(ctx, site, ic(fmt), coords, lambda: getattr(cm, name)(format=spf), wit)
             if ok:
                 ctx.check(cl("C13.summary.extreme"), numpy.ndim(got) == 0 and float(got) == ref, site, "== direct evaluation on mat (exact)",
                           ic(fmt), witness=dict(wit, mat=G, got=got, expected=ref), coords=coords)
         ax = axis
         for name, ref in (("max", K.max(axis=ax)), ("min", K.min(axis=ax))):
             site = defsite(cm, name)
-            ok, got = returns(ctx, site, ic(fmt + "/axis"), coords, lambda: getattr(cm, name)(format=fmt, axis=ax), wit)
+            ok, got = returns(ctx, site, ic(fmt + "/axis"), coords, lambda: getattr(cm, name)(format=spf, axis=ax), wit)
             if ok:
                 refl = [max(col) if name == "max" else min(col) for col in (K.T.tolist() if ax == 0 else K.tolist())]
                 ctx.check(cl("C13.summary.extreme"), numpy.shape(got) == (n,) and numpy.asarray(got).tolist() == refl, site,
@@ -348,13 +360,13 @@ def judge_readonly(ctx, cm, G, pair, axis, coords, wit, state=None):
         # mean
         site = defsite(cm, "mean")
         ref = math.fsum(kflat) / (n * n)
-        ok, got = returns(ctx, site, ic(fmt), coords, lambda: cm.mean(format=fmt), wit)
+        ok, got = returns(ctx, site, ic(fmt), coords, lambda: cm.mean(format=spf), wit)
         if ok:
             err = abs(float(got) - ref) if numpy.ndim(got) == 0 else float("inf")
             ctx.maxnote("mean error / tolerance", err / O.tol(h * scale))
             ctx.check(cl("C13.summary.mean"), err <= O.tol(h * scale), site, "== sum(mat)/n^2", ic(fmt),
                       witness=dict(wit, mat=G, got=got, expected=ref), coords=coords)
-        ok, got = returns(ctx, site, ic(fmt + "/axis"), coords, lambda: cm.mean(format=fmt, axis=ax), wit)
+        ok, got = returns(ctx, site, ic(fmt + "/axis"), coords, lambda: cm.mean(format=spf, axis=ax), wit)
         if ok:
             refl = [math.fsum(col) / n for col in (K.T.tolist() if ax == 0 else K.tolist())]
             ctx.check(cl("C13.summary.mean"), O.maxerr(got, refl) <= O.tol(h * scale), site, "== sum(mat)/n^2", ic(fmt + "/axis"),
@@ -365,14 +377,14 @@ def judge_readonly(ctx, cm, G, pair, axis, coords, wit, state=None):
             ctx.sumnote("matrices not numerically invertible (inverse / min_inbreeding not judged)")
             for name in ("inverse", "min_inbreeding"):
                 try:
-                    getattr(cm, name)(format=fmt)
+                    getattr(cm, name)(format=spf)
                 except Exception as e:
                     ctx.raised("%s on a singular matrix" % name, e)
             continue
         cond = float(w.max() / w.min())
         Ks = 0.5 * (K + K.T)
         site = defsite(cm, "inverse")
-        ok, got = returns(ctx, site, ic(fmt), coords, lambda: cm.inverse(format=fmt), wit)
+        ok, got = returns(ctx, site, ic(fmt), coords, lambda: cm.inverse(format=spf), wit)
         if ok:
             ref = numpy.linalg.solve(Ks.astype(O.LD).astype(float), numpy.eye(n))
             # the defining relation, judged on the residual: K @ got == I
@@ -384,7 +396,7 @@ def judge_readonly(ctx, cm, G, pair, axis, coords, wit, state=None):
             ctx.check(cl("C13.summary.inverse"), res <= 1e-9 * cond + 1e-12 and err <= lim + 1e-12, site, "mat @ inverse == I", ic(fmt),
                       witness=dict(wit, mat=G, got=got, residual=res, err=err, cond=cond), coords=coords)
         site = defsite(cm, "min_inbreeding")
-        ok, got = returns(ctx, site, ic(fmt), coords, lambda: cm.min_inbreeding(format=fmt), wit)
+        ok, got = returns(ctx, site, ic(fmt), coords, lambda: cm.min_inbreeding(format=spf), wit)
         if ok:
             # minimum of x'Kx subject to sum(x) = 1, from the KKT system (not from the closed form)
             kkt = numpy.zeros((n + 1, n + 1)); kkt[:n, :n] = 2 * Ks; kkt[:n, n] = 1.0; kkt[n, :n] = 1.0
@@ -396,6 +408,7 @@ def judge_readonly(ctx, cm, G, pair, axis, coords, wit, state=None):
             ctx.maxnote("min_inbreeding error / tolerance", err / lim)
             ctx.check(cl("C13.summary.min_inbreeding"), err <= lim, site, "== min x'Gx subject to sum(x)=1", ic(fmt),
                       witness=dict(wit, mat=G, got=got, expected=ref, cond=cond), coords=coords)
+    cap[0] = ""
     # -- PSD flag where it does not depend on a tolerance choice
     s = float(numpy.abs(w).max())
     if s > 0 and abs(w.min()) > 1e-6 * s:
